@@ -1,6 +1,8 @@
 # Copyright 2020 National Technology & Engineering Solutions of Sandia, LLC (NTESS).
 # Under the terms of Contract DE-NA0003525 with NTESS, the U.S. Government retains
 # certain rights in this software.
+from numbers import Integral
+
 from jaqalpaq.error import JaqalError
 from .parameter import (
     ParamType,
@@ -44,6 +46,25 @@ class Register:
             raise JaqalError(
                 f"Illegal size specification in map statement defining {name}."
             )
+        if alias_from is not None and not isinstance(
+            alias_from, (Register, AnnotatedValue)
+        ):
+            raise JaqalError(f"Cannot map {name} onto {alias_from}: it is not a register.")
+        if isinstance(size, AnnotatedValue):
+            if size.kind not in (ParamType.INT, ParamType.NONE):
+                raise JaqalError(
+                    f"Register {name} cannot have size {size.name} of non-integer kind {size.kind}."
+                )
+        elif size is not None and not isinstance(size, Integral):
+            raise JaqalError(f"Register {name} cannot have non-integer size {size}.")
+        if alias_slice is not None:
+            for bound in (alias_slice.start, alias_slice.stop, alias_slice.step):
+                if bound is not None and not isinstance(
+                    bound, (Integral, AnnotatedValue)
+                ):
+                    raise JaqalError(
+                        f"Cannot slice register with {bound}: it is not an integer."
+                    )
         self._alias_from = alias_from
         self._alias_slice = alias_slice
         if alias_slice is not None:
@@ -279,6 +300,10 @@ class NamedQubit:
         self._alias_index = alias_index
         if alias_index is None or alias_from is None:
             raise JaqalError(f"Invalid map statement constructing qubit {name}.")
+        if not isinstance(alias_from, (Register, AnnotatedValue)):
+            raise JaqalError(f"Cannot index {alias_from}: it is not a register.")
+        if not isinstance(alias_index, (Integral, AnnotatedValue)):
+            raise JaqalError(f"Cannot index a register with non-integer {alias_index}.")
         if isinstance(alias_index, AnnotatedValue) or isinstance(
             alias_from, AnnotatedValue
         ):
